@@ -21,6 +21,8 @@ pub struct BConfig {
     pub max_ops: usize,
     pub exh_budget: u64,
     pub ncrates: usize,
+    /// shrinking mode: infrastructure problems make the candidate "not failing" instead of ending the run
+    pub tolerant: bool,
 }
 
 pub struct BOut {
@@ -57,6 +59,12 @@ pub fn run_corpus(rc: &RunCtx, cfg: &BConfig, layouts: &[(usize, Layout)], tag: 
     let mut build_s = 0.0;
     let mut run_s = 0.0;
     let mut results = Vec::new();
+    let bail = |msg: String| -> BOut {
+        if !cfg.tolerant {
+            inconclusive(&msg);
+        }
+        BOut { results: vec![], uncompilable: vec![], build_s: 0.0, run_s: 0.0 }
+    };
     for (pi, profile) in cfg.profiles.iter().enumerate() {
         let mut crates;
         let mut attempts = 0;
@@ -81,11 +89,11 @@ pub fn run_corpus(rc: &RunCtx, cfg: &BConfig, layouts: &[(usize, Layout)], tag: 
             // is the macro crate itself broken?
             let macro_broken = out.diags.iter().any(|d| d.level == "error" && d.package.contains("bitbybit")) || out.stderr.contains("could not compile `bitbybit`");
             if macro_broken {
-                inconclusive(&format!("the bitbybit crate does not build from /repo: {}", cargo::tail(&out.stderr, 5)));
+                return bail(format!("the bitbybit crate does not build from /repo: {}", cargo::tail(&out.stderr, 5)));
             }
             let (by_mod, un) = cargo::attribute(&out.diags);
             if by_mod.is_empty() || attempts > 3 || pi > 0 {
-                inconclusive(&format!(
+                return bail(format!(
                     "generated corpus {} does not build (profile {}): {} unattributed errors; {}",
                     tag,
                     profile,
@@ -121,11 +129,17 @@ pub fn run_corpus(rc: &RunCtx, cfg: &BConfig, layouts: &[(usize, Layout)], tag: 
             let st = cmd.output();
             match st {
                 Ok(o) if o.status.success() => {}
-                Ok(o) => inconclusive(&format!("generated binary {} failed: {} {}", bin, o.status, cargo::tail(&String::from_utf8_lossy(&o.stderr), 5))),
-                Err(e) => inconclusive(&format!("cannot run {}: {}", bin, e)),
+                Ok(o) => return bail(format!("generated binary {} failed: {} {}", bin, o.status, cargo::tail(&String::from_utf8_lossy(&o.stderr), 5))),
+                Err(e) => return bail(format!("cannot run {}: {}", bin, e)),
             }
-            let text = std::fs::read_to_string(&outp).unwrap_or_else(|e| inconclusive(&format!("no result file {}: {}", outp.display(), e)));
-            let mut r: Vec<LayoutResult> = serde_json::from_str(&text).unwrap_or_else(|e| inconclusive(&format!("bad result file: {}", e)));
+            let text = match std::fs::read_to_string(&outp) {
+                Ok(t) => t,
+                Err(e) => return bail(format!("no result file {}: {}", outp.display(), e)),
+            };
+            let mut r: Vec<LayoutResult> = match serde_json::from_str(&text) {
+                Ok(r) => r,
+                Err(e) => return bail(format!("bad result file: {}", e)),
+            };
             all.append(&mut r);
         }
         run_s += t0.elapsed().as_secs_f64();
@@ -173,10 +187,11 @@ pub fn config_for(prop: &str, tier: Tier) -> BConfig {
     let mut c = BConfig {
         emit: acc.clone(),
         profiles: tier.pick(vec!["dev"], vec!["dev", "release"]),
-        cases: tier.pick(1500, 12000),
+        cases: tier.pick(2000, 16000),
         max_ops: 24,
         exh_budget: tier.pick(150_000, 1_500_000),
         ncrates: 16,
+        tolerant: false,
     };
     match prop {
         "C01" => {
@@ -283,6 +298,7 @@ pub fn run(rc: &RunCtx) -> Outcome {
     }
     let out = run_corpus(rc, &cfg, &layouts, "b", &[], None);
     let mut o = summarize(rc, &cfg, &layouts, out);
+    shrink_violations(rc, &cfg, &mut o);
     if prop == "C11" {
         o.coverage["overhang_probes_generated"] = json!(probes_total);
         o.coverage["overhang_probes_accepted_by_the_macro_and_run"] = json!(probes_accepted);
@@ -421,5 +437,68 @@ pub fn summarize(rc: &RunCtx, cfg: &BConfig, layouts: &[(usize, Layout)], out: B
             "the reference model (engine/model) and the generated adapters are trusted; every adapter conversion uses only uN::new, .value(), `as` and its own variant<->discriminant match".into(),
             "held on everything explored: sampled declarations and inputs, exhaustive only where stated".into(),
         ],
+    }
+}
+
+/// Program-level shrinking of up to three violation groups (one per signature): greedy structural
+/// reduction of the declaration, re-running the level-2 search (same seed) on every candidate.
+pub fn shrink_violations(rc: &RunCtx, cfg: &BConfig, o: &mut Outcome) {
+    if std::env::var("BBV_NO_SHRINK").is_ok() {
+        return;
+    }
+    let ro = RenderOpts::default();
+    let mut done: std::collections::BTreeSet<String> = Default::default();
+    let t0 = std::time::Instant::now();
+    for v in o.violations.iter_mut() {
+        if v.replay["kind"] != "behaviour" || v.replay["case"].is_null() {
+            continue;
+        }
+        if done.len() >= 3 || done.contains(&v.sig) || t0.elapsed().as_secs() > 150 {
+            continue;
+        }
+        done.insert(v.sig.clone());
+        let layout: Layout = match serde_json::from_value(v.replay["layout"].clone()) {
+            Ok(l) => l,
+            Err(_) => continue,
+        };
+        let check = v.replay["check"].as_str().unwrap_or("").to_string();
+        let profile: &'static str = match v.replay["profile"].as_str() {
+            Some("release") => "release",
+            Some("checked") => "checked",
+            _ => "dev",
+        };
+        let orig_valid = rules::layout_verdict(&layout).is_valid();
+        let cfg1 = BConfig { emit: cfg.emit.clone(), profiles: vec![profile], cases: cfg.cases, max_ops: cfg.max_ops, exh_budget: cfg.exh_budget, ncrates: 1, tolerant: true };
+        let mut best: Option<rt::run::FailOut> = None;
+        let (small, steps, log) = crate::shrink::reduce(&layout, 40, |cand| {
+            if t0.elapsed().as_secs() > 170 {
+                return false;
+            }
+            if rules::layout_verdict(cand).is_valid() != orig_valid {
+                return false;
+            }
+            let out = run_corpus(rc, &cfg1, &[(0, cand.clone())], "s", &[], None);
+            for (_, rs) in &out.results {
+                for r in rs {
+                    if let Some(f) = &r.failure {
+                        if f.check == check {
+                            best = Some(f.clone());
+                            return true;
+                        }
+                    }
+                }
+            }
+            false
+        });
+        if let Some(f) = best {
+            v.replay["original_layout"] = v.replay["layout"].clone();
+            v.replay["original_case"] = v.replay["case"].clone();
+            v.replay["layout"] = json!(small);
+            v.replay["source"] = json!(render_layout(&small, &ro));
+            v.replay["case"] = json!(f.case);
+            v.replay["detail"] = json!(f.detail);
+            v.replay["program_shrinking"] = json!({"candidates_compiled": steps, "accepted_steps": log});
+            v.summary = format!("{} [{}] {}: {}\n{}(program reduced in {} compiled candidates)", rc.prop, profile, f.check, f.detail, render_layout(&small, &ro), steps);
+        }
     }
 }
